@@ -26,18 +26,19 @@ import (
 // ---------- scenario ----------
 
 type hOp struct {
-	Op   string `json:"op"`             // deliver | ack | ackidx | save | savebegin | saveend | crash | close
-	Vb   int    `json:"vb,omitempty"`   // index into the assigned range
-	Kind string `json:"kind,omitempty"` // deliver: mut del exp cc cd cf sc sd cm adv ikey txn
-	Gap  int    `json:"gap,omitempty"`  // deliver: seq = last+1+gap (fresh events)
-	Snap int    `json:"snap,omitempty"` // deliver: extra room when a new snapshot is announced
-	AtL  bool   `json:"atl,omitempty"`  // deliver: new marker starts at the last sent seqno instead of last+1
-	Out  bool   `json:"out,omitempty"`  // deliver: (C06) event placed outside its announced snapshot
-	N    int    `json:"n,omitempty"`    // ack: up to N pending events; ackidx: index; saveend/crash: writes applied
-	Fail bool   `json:"fail,omitempty"` // save / saveend: the store rejects
-	Ord  []int  `json:"ord,omitempty"`  // saveend / crash: per-vBucket write order seed
-	Old  bool   `json:"old,omitempty"`  // deliver (with skipUntil configured): a document whose CAS is old (a restored / replicated document keeps its CAS): it lies before skipUntil although newer events were sent before it
-	Torn int    `json:"torn,omitempty"` // crash on the file backend: the process dies inside a save's file write, leaving 1: an empty file, 2: half of the content, 3: a prefix chosen by N
+	Op    string `json:"op"`              // deliver | ack | ackidx | save | savebegin | saveend | crash | close
+	Vb    int    `json:"vb,omitempty"`    // index into the assigned range
+	Kind  string `json:"kind,omitempty"`  // deliver: mut del exp cc cd cf sc sd cm adv ikey txn
+	Gap   int    `json:"gap,omitempty"`   // deliver: seq = last+1+gap (fresh events)
+	Snap  int    `json:"snap,omitempty"`  // deliver: extra room when a new snapshot is announced
+	AtL   bool   `json:"atl,omitempty"`   // deliver: new marker starts at the last sent seqno instead of last+1
+	Out   bool   `json:"out,omitempty"`   // deliver: (C06) event placed outside its announced snapshot
+	N     int    `json:"n,omitempty"`     // ack: up to N pending events; ackidx: index; saveend/crash: writes applied
+	Fail  bool   `json:"fail,omitempty"`  // save / saveend: the store rejects
+	Ord   []int  `json:"ord,omitempty"`   // saveend / crash: per-vBucket write order seed
+	Panic bool   `json:"panic,omitempty"` // deliver (document events): the consumer's listener panics on this event (a poison document) before acknowledging it
+	Old   bool   `json:"old,omitempty"`   // deliver (with skipUntil configured): a document whose CAS is old (a restored / replicated document keeps its CAS): it lies before skipUntil although newer events were sent before it
+	Torn  int    `json:"torn,omitempty"`  // crash on the file backend: the process dies inside a save's file write, leaving 1: an empty file, 2: half of the content, 3: a prefix chosen by N
 }
 
 type hScenario struct {
@@ -1129,8 +1130,44 @@ func (s *session) deliver(op hOp) {
 	s.ever[m.vb][ev.tuple] = true
 	m.all = append(m.all, ev)
 	before := s.cons.count()
-	feedEvent(o, m.vb, e)
+	poison := op.Panic && fresh && isDocKind(e.Kind) && !isAbsorbedKind(e.Kind) && !s.beforeSkipUntil(e) && s.oracles["C01"]
+	var listenerPanic any
+	if poison {
+		s.cons.mu.Lock()
+		s.cons.onEvent = func(*delivered) { panic("listener: poison document") }
+		s.cons.mu.Unlock()
+		func() {
+			defer func() { listenerPanic = recover() }()
+			feedEvent(o, m.vb, e)
+		}()
+		s.cons.mu.Lock()
+		s.cons.onEvent = nil
+		s.cons.mu.Unlock()
+		s.label("listener_panicked")
+	} else {
+		feedEvent(o, m.vb, e)
+	}
 	evs := s.cons.snapshot()
+	if poison {
+		// the consumer saw the event and never acknowledged it. Either the panic takes the process down (today), or the
+		// library survives it - in no case is the event settled
+		if len(evs) == before+1 {
+			ev.delivered = evs[before]
+			m.docs = append(m.docs, ev)
+			m.pending = append(m.pending, ev)
+		}
+		if offs, _, _ := s.st.GetOffsets(); offs != nil {
+			if off, ok := offs.Load(m.vb); ok && off.SeqNo >= e.Seq && m.maxSettle < e.Seq {
+				s.fail("C01", "vb %d: the listener panicked on %s event seq %d before acknowledging it, yet the tracked position is %d: the library settled an event the consumer never acknowledged", m.vb, e.Kind, e.Seq, off.SeqNo)
+				return
+			}
+		}
+		if listenerPanic != nil {
+			s.label("listener_panic_took_the_process_down")
+			s.crash(hOp{Op: "crash"})
+		}
+		return
+	}
 	if isDocKind(e.Kind) && s.beforeSkipUntil(e) {
 		// a document event (also one under a reserved key) older than skipUntil is dropped by the observer: not shown,
 		// not counted, no position change
